@@ -81,6 +81,7 @@ type Machine struct {
 	// DjumpTable: the last executed instruction was a dynamic jump that
 	// consulted the jump table (address neither halt, 0, misaligned nor too big).
 	DjumpTable bool
+	DjumpEntry JTEntry // the entry it read
 	// AccessAddr/AccessLen: the memory access of the last executed instruction
 	// (AccessLen = 0 when it made none).
 	AccessAddr uint32
@@ -213,6 +214,7 @@ func (m *Machine) Step() Exit {
 		}
 		m.DjumpTable = true
 		e := p.Entry(uint64(a)/JumpAlign - 1)
+		m.DjumpEntry = e
 		if e.Huge || !p.IsBlockStart(e.Val) {
 			return panicExit()
 		}
